@@ -659,6 +659,7 @@ func runC01(c *Ctx) {
 	randomCombinations(c, g, 200, false)
 	c01LongLived(c, g)
 	spHistories(c, g)
+	spConcurrent(c)
 	// documents the parser or the round-trip validator must refuse outright
 	gb := c.Group("c01raw", spImports, caseType, "check_c01")
 	{ // a genuinely signed response made unacceptable to the round-trip validator only (empty CDATA section)
